@@ -34,6 +34,21 @@ theorem pkeUnseal_ok_iff (b : Backend) (sk blob key : Bytes) :
         key = pkeEnc (pkeOf b) ctx edk :=
   PM.pkeUnseal_ok_iff _ sk blob key
 
+/-- sealed keys have one length: a blob the recipient accepts is exactly tag ‖ encapsulation ‖ 32 bytes long, so a blob
+    with a byte removed or inserted *anywhere* (a leading zero of an RSA ciphertext, say) is never accepted -/
+theorem pke_accepts_only_exact_length (b : Backend) (sk blob key : Bytes)
+    (h : pkeUnseal (pkeOf b) sk blob = .ok key) :
+    blob.length = (pkeOf b).tagLen + (pkeOf b).encLen + 32 := by
+  obtain ⟨tag, e, edk, ctx, hb, ht, he, hd, _⟩ := (pkeUnseal_ok_iff b sk blob key).mp h
+  rw [hb]
+  split <;> simp only [List.length_append, ht, he, hd] <;> omega
+
+theorem pke_rejects_other_lengths (b : Backend) (sk blob blob' key key' : Bytes)
+    (h : pkeUnseal (pkeOf b) sk blob = .ok key) (h' : pkeUnseal (pkeOf b) sk blob' = .ok key') :
+    blob'.length = blob.length := by
+  rw [pke_accepts_only_exact_length b sk blob key h, pke_accepts_only_exact_length b sk blob' key' h']
+
+
 /-- the MAC input of wrapped keys is a plain concatenation; it is injective in (header, body)
     because the header set is prefix-free (C10) and the nonce / prefix widths are fixed:
     two (header, nonce, ciphertext) triples with equal-length nonces and headers from a
